@@ -66,10 +66,12 @@ let lim (toks : string list) : string =
            (List.combine os rs) in
        "E " ^ String.concat "," used ^ " regs=" ^ list_len af.ra_regs ^ " cells=" ^ list_len af.ra_cells)
   | [("const" | "clos") as kind; n; ks] ->
+    (* same layout as the harness: m = ceil(n/30000) children (constants 1..m), then the n loads m+1..m+n *)
     let n = int_of_string ("0x" ^ n) in
+    let m = (n + 29999) / 30000 in
     let ks = if ks = "-" then [] else List.map (fun s -> int_of_string ("0x" ^ s)) (String.split_on_char ',' ks) in
     let dst = valueReg Z0 in
-    let req i = if kind = "const" then ReqConst (dst, z_of_int i) else ReqClosure (dst, z_of_int i) in
+    let req i = if kind = "const" then ReqConst (dst, z_of_int (m + i)) else ReqClosure (dst, z_of_int (m + i)) in
     let rec first_bad i = if i > n then None else
         match compile (req i) with Encoded _ -> first_bad (i + 1) | o -> Some o in
     (match first_bad 1 with
@@ -79,10 +81,51 @@ let lim (toks : string list) : string =
   | ["etc"; i] -> outcome_str (compile (ReqEtcLookup (valueReg Z0, valueReg (z_of_int 1), z_of_hex i)))
   | ["fill"; i] -> outcome_str (compile (ReqFillTable (valueReg Z0, valueReg (z_of_int 1), z_of_hex i)))
   | ["cltrunc"; h] -> outcome_str (compile (ReqClTrunc (z_of_hex h)))
-  | ["jump"; kind; from; too] ->
+  | ["jump"; kind; from; too; len] ->
     let r0 = valueReg Z0 in
     let opcode = match kind with "j" -> jump Z0 | "jif" -> jumpIf Z0 r0 | _ -> jumpIfNot Z0 r0 in
-    outcome_str (compile (ReqJump (opcode, z_of_hex from, z_of_hex too)))
+    outcome_str (compile (ReqJump (opcode, z_of_hex from, z_of_hex too, z_of_hex len)))
+  | _ -> "?"
+
+(* wf: <id> K<c|o per constant> F<start>,<end>,<regs>,<cells>;.. W<hex word>,..  ->  ok <n> | bad f<i> pc<k>
+   The certificate of reachable addresses handed to the proved checker [check_code] is computed here
+   by a plain work-list over the model's own successor function [succs]; it is untrusted (a wrong
+   certificate can only make check_code answer false). *)
+let reach_cert (code : z array) : bool list =
+  let n = Array.length code in
+  let seen = Array.make n false in
+  let todo = ref [0] in
+  while !todo <> [] do
+    (match !todo with
+     | pc :: rest ->
+       todo := rest;
+       if pc >= 0 && pc < n && not seen.(pc) then begin
+         seen.(pc) <- true;
+         List.iter (fun s -> todo := int_of_z s :: !todo) (succs (z_of_int pc) code.(pc))
+       end
+     | [] -> ())
+  done;
+  Array.to_list seen
+
+let wf (toks : string list) : string =
+  match toks with
+  | [k; f; w] ->
+    let kinds = List.init (String.length k - 1) (fun i -> k.[i + 1] = 'c') in
+    let words = Array.of_list (List.map z_of_hex (split_on ',' (String.sub w 1 (String.length w - 1)))) in
+    let fns = split_on ';' (String.sub f 1 (String.length f - 1)) in
+    let rec go i = function
+      | [] -> "ok " ^ string_of_int i
+      | d :: rest ->
+        (match List.map (fun s -> int_of_string ("0x" ^ s)) (String.split_on_char ',' d) with
+         | [st; en; rg; ce] ->
+           let code = Array.sub words st (en - st) in
+           let fn = { fn_code = Array.to_list code; fn_regs = z_of_int rg;
+                      fn_cells = z_of_int ce; fn_kcode = kinds } in
+           let cert = reach_cert code in
+           if check_code fn cert then go (i + 1) rest
+           else Printf.sprintf "bad f%d pc%s" i (match first_bad fn cert with Some p -> hex_of_z p | None -> "-")
+         | _ -> "?")
+    in go 0 fns
   | _ -> "?"
 
 let () =
@@ -91,5 +134,5 @@ let () =
     match split_on ' ' line with
     | id :: rest ->
       print_string id; print_char ' ';
-      print_endline (if engine = "lim" then lim rest else enc rest)
+      print_endline (if engine = "lim" then lim rest else if engine = "wf" then wf rest else enc rest)
     | [] -> ())
